@@ -137,7 +137,7 @@ func (f *forest) newObject(i int) *hotstuff.Block {
 		pv = f.viewOf(p)
 	}
 	batch := &clientpb.Batch{Commands: []*clientpb.Command{{ClientID: uint32(i + 1), SequenceNumber: 1, Data: []byte(fmt.Sprintf("b%d", i))}}}
-	b := hotstuff.NewBlock(ph, hotstuff.NewQuorumCert(nil, hotstuff.View(pv), ph), batch, hotstuff.View(f.view[i]), hotstuff.ID(1+i%4))
+	b := kit.NewBlock(ph, hotstuff.NewQuorumCert(nil, hotstuff.View(pv), ph), batch, hotstuff.View(f.view[i]), hotstuff.ID(1+i%4))
 	b.SetTimestamp(baseTime.Add(time.Duration(i) * time.Second)) // NewBlock stamps the wall clock; the hash must not depend on it
 	return b
 }
